@@ -641,3 +641,45 @@ Lemma key_not_determining_refuted :
   (* per-write classification sees nothing: both stores are publications of an absent key or never happen *)
   kinds N.eqb [1; 1; 0] (init (two (user 1%N) (user 2%N)) empty) = [KRead; KMemoWrite; KRead].
 Proof. vm_compute. repeat split; reflexivity. Qed.
+
+(* ------------------------------------------------------------------------------------------ *)
+(* iteration over the key set of a shared container                                            *)
+(* ------------------------------------------------------------------------------------------ *)
+Lemma bools_eqb_refl : forall l, bools_eqb l l = true.
+Proof. induction l as [|x l IH]; cbn; [reflexivity|]. rewrite IH. destruct x; reflexivity. Qed.
+
+Section IterP.
+Variable V R : Type.
+Variable memo : N -> option V.
+Variable base : store V.
+
+(* an iteration over locations that nobody publishes into (no key of the container is a memo key - all its keys pre-exist,
+   whatever is stored again into them) is disciplined: it always goes through *)
+Lemma ok_iterate_frozen : forall ks (okv errv : R) kn,
+  (forall x, In x ks -> memo x = None) -> ok memo base kn (iterate ks okv errv) okv.
+Proof.
+  intros ks okv errv kn Fz. unfold iterate, iter_keys.
+  apply ok_read_all; [exact Fz|]. cbn [rev app].
+  apply ok_read_all; [exact Fz|]. cbn [rev app].
+  rewrite bools_eqb_refl. constructor.
+Qed.
+End IterP.
+
+(* refuted: an iterator of the container {7, 8} (key 8 pre-exists) against the idempotent publication of the NEW key 7
+   (a memo: confluent for every reader of the key - C20_check_then_act_confluent).  Schedule: the iterator takes its first
+   look, the publisher stores, the iterator goes on: RuntimeError, although alone it goes through; every single store is a
+   memo write.  With key 7 pre-existing (stored again with the same value) the same schedule is fine. *)
+Lemma iter_vs_new_key_refuted :
+  let s0 : store N := upd empty 8%N 5%N in
+  let it : prog N N := iterate [7; 8]%N 0%N 1%N in
+  let pub : prog N N := cta_noreadback 7%N [] (fun _ => 42%N) (fun v => Ret v) in
+  result (exec [0; 0; 1; 1; 0; 0] (init (two it pub) s0)) 0 = Some 1%N /\
+  fst (solo it s0) = 0%N /\
+  result (exec [0; 0; 1; 1; 0; 0] (init (two it pub) s0)) 1 = Some 42%N /\
+  ~ In KDestructiveWrite (kinds N.eqb [0; 0; 1; 1; 0; 0] (init (two it pub) s0)) /\
+  (* the key already there: publication into a pre-existing key leaves the key set alone *)
+  result (exec [0; 0; 1; 1; 0; 0] (init (two it (Put 7%N 42%N (Ret 42%N))) (upd s0 7%N 42%N))) 0 = Some 0%N.
+Proof.
+  vm_compute. repeat split; try reflexivity.
+  intro H. repeat (destruct H as [H|H]; [discriminate|]). exact H.
+Qed.
